@@ -31,6 +31,7 @@ THEOREMS = [
     'CpProofs.C02.C02_translate_table',
     'CpProofs.C02.C02_translated_identifier_safe',
     'CpProofs.C02.walk_no_outOfFuel',
+    'CpProofs.C02.C02_no_params_without_dispatch',
 ]
 LEVEL = 'proof'
 TECHNIQUE = ('Lean 4 proof: the transcription of Dispatcher.find_handler is proved equal to a declarative longest-prefix / '
@@ -45,7 +46,8 @@ LEVEL_TEXT = ('Proved in Lean for every object graph, application config and pat
               'exactly when it is missing, and Allow is the sorted upper-case names plus HEAD when GET exists. The translate '
               'table is regenerated from the live module and proved to map exactly string.punctuation to "_". Partial: Python '
               'attribute lookup is the serialised attribute view of the real objects; purity is checked on the implementation '
-              'only (the model is a function by construction); popargs parameter binding (request.params) is not modelled.')
+              'only (the model is a function by construction); what popargs binds into request.params is modelled and compared, with '
+              'one theorem (no path-derived keyword arguments without _cp_dispatch).')
 LEVEL_NOTE = ('Trusted: Lean kernel, the hand model lean/CpModel/Dispatch.lean as validated by the differential run, the '
               'serialised getattr view of the generated objects (Python semantics), the harness.')
 TRUSTED_BASE = [
@@ -463,6 +465,13 @@ def model_expectation(line, view, kind):
         if r.startswith('A='):
             v = r[2:]
             exp['allow'] = None if v == 'N' else ('' if v == '_' else ', '.join(T.dec_text(a) for a in v.split(',')))
+        elif r.startswith('P='):
+            kw = {}
+            if r[2:] != '_':
+                for item in r[2:].split(','):
+                    k, v = item.split('~')
+                    kw[T.dec_text(k)] = T.dec_text(v)
+            exp['kwargs'] = kw
     return exp
 
 
@@ -474,6 +483,8 @@ def compare(exp, obs, kind):
         diffs.append('status')
     if kind == 'M' and exp['status'] is not None and exp['allow'] != obs['allow']:
         diffs.append('allow')
+    if exp['ran'] and obs['ran'] and 'kwargs' in exp and [exp['kwargs']] != obs.get('kwargs', [{}]):
+        diffs.append('kwargs')
     return diffs
 
 
@@ -638,6 +649,8 @@ def run_tree(spec, kind, reqs, purity=False):
 
 def strip_obs(o):
     d = {k: o[k] for k in ('status', 'ran', 'allow', 'path_info')}
+    if any(o.get('kwargs') or []):
+        d['kwargs'] = o['kwargs']
     if o.get('hang'):
         d['hang'] = True
     return d
@@ -665,6 +678,7 @@ def check_batch(ctx, batch, compare_model=True):
             ctx.count('nodes:%d' % min(10 * (len(spec['nodes']) // 10), 30))
             if o['ran']:
                 ctx.count('args:%d' % min(len(o['ran'][0][1]), 4))
+                ctx.count('kwargs_from_popargs:%d' % min(len((o.get('kwargs') or [{}])[0]), 3))
                 ctx.count('ran:' + ('call' if o['ran'][0][0].endswith('()') else
                                     o['ran'][0][0].split('.', 1)[1] if o['ran'][0][0].split('.', 1)[1] in
                                     ('index', 'default') + tuple(VERBS) else 'method'))
